@@ -504,3 +504,67 @@ Proof.
   rewrite (saddr_addrN _ _ _ _ _ _ k _ _ _ Hjb), (saddr_addrN _ _ _ _ _ _ k _ _ _ Hjb), !Nat2Z.id in Hcell.
   rewrite Hsz. rewrite Hcell. unfold addrN. rewrite Hsi. destruct (uw =? FULL_INTERLACE); reflexivity.
 Qed.
+
+(* ------------------------------------------------------------------ *)
+(** * VSfexist agrees with VSsetfields; VSfdefine stores a complete definition *)
+
+Lemma fexist_one_find : forall nm fl, fexist_one nm fl = match find_idx nm (map w_name fl) 0 with Some _ => true | None => false end.
+Proof.
+  intros nm fl. induction fl as [|f t IH]; [reflexivity|].
+  unfold fexist_one in *. cbn [existsb map find_idx]. destruct (VSModel.name_eqb nm (w_name f)); [reflexivity|].
+  cbn [orb]. rewrite (find_idx_shift nm (map w_name t) (0 + 1)). rewrite IH. destruct (find_idx nm (map w_name t) 0); reflexivity.
+Qed.
+
+Lemma fexist_loop_setfields : forall fl names,
+  fexist_loop fl names = match setfields_r_loop (map w_name fl) names with Some _ => true | None => false end.
+Proof.
+  intros fl names. induction names as [|nm rest IH]; [reflexivity|].
+  cbn [fexist_loop setfields_r_loop]. rewrite fexist_one_find.
+  destruct (find_idx nm (map w_name fl) 0); [|reflexivity].
+  rewrite IH. destruct (setfields_r_loop (map w_name fl) rest); reflexivity.
+Qed.
+
+(** VSfexist(fields) answers "all exist" exactly when VSsetfields(fields) accepts the list for reading: every name counts *)
+Lemma vsfexist_iff_setfields_lemma : forall fl names,
+  m_vsfexist fl names = match m_setfields_r (map w_name fl) names with Some _ => true | None => false end.
+Proof.
+  intros fl names. unfold m_vsfexist, m_setfields_r. destruct names as [|n0 rest]; [reflexivity|].
+  destruct (VSFIELDMAX <? Z.of_nat (length (n0 :: rest))); [reflexivity|]. apply fexist_loop_setfields.
+Qed.
+
+Lemma vsfexist_all_names_lemma : forall fl names, m_vsfexist fl names = true ->
+  forall nm, In nm names -> exists f, In f fl /\ VSModel.name_eqb (VSModel.cut_name nm) (w_name f) = true.
+Proof.
+  intros fl names H nm Hin. unfold m_vsfexist in H. destruct names as [|n0 rest]; [discriminate|].
+  destruct (VSFIELDMAX <? Z.of_nat (length (n0 :: rest))); [discriminate|].
+  assert (G : forall l, fexist_loop fl l = true -> forall x, In x l -> fexist_one x fl = true).
+  { induction l as [|y t IH]; intros Hl x Hx; [destruct Hx|]. cbn [fexist_loop] in Hl.
+    destruct (fexist_one y fl) eqn:E; [|discriminate]. destruct Hx as [<-|Hx]; [exact E|apply IH; assumption]. }
+  specialize (G _ H (VSModel.cut_name nm) (in_map _ _ _ Hin)).
+  unfold fexist_one in G. apply existsb_exists in G. exact G.
+Qed.
+
+(** after VSfdefine the symbol table holds, under that name, exactly the new definition: type, order AND stored size *)
+Lemma put_sym_find : forall s usym, VSModel.name_eqb (s_name s) (s_name s) = true -> find_sym (s_name s) (put_sym s usym) = Some s.
+Proof.
+  intros s usym Hrefl. induction usym as [|g t IH]; cbn [put_sym find_sym].
+  - rewrite Hrefl. reflexivity.
+  - destruct (VSModel.name_eqb (s_name s) (s_name g)) eqn:E; cbn [find_sym]; [rewrite Hrefl; reflexivity|rewrite E; exact IH].
+Qed.
+
+Lemma name_eqb_refl : forall a, VSModel.name_eqb a a = true.
+Proof. induction a as [|x t IH]; [reflexivity|]. cbn. rewrite Z.eqb_refl, IH. reflexivity. Qed.
+
+Lemma fdefine_stores_definition_lemma : forall usym name t order usym',
+  m_fdefine usym name t order = Some usym' ->
+  exists sz, dfkntsize t = Some sz /\
+    find_sym (VSModel.cut_name name) usym' = Some (mksym (VSModel.cut_name name) (s16 t) (u16 (s16 sz)) (u16 order)).
+Proof.
+  intros usym name t order usym' H. unfold m_fdefine in H.
+  destruct (existsb (Z.eqb 44) name || match name with [] => true | _ :: _ => false end); [discriminate|].
+  destruct ((order <? 1) || (MAX_ORDER <? order)); [discriminate|].
+  destruct (dfkntsize t) as [sz|]; [|discriminate].
+  destruct (MAX_FIELD_SIZE <? s16 sz * order); [discriminate|].
+  inversion H; subst. exists sz. split; [reflexivity|].
+  apply (put_sym_find (mksym (VSModel.cut_name name) (s16 t) (u16 (s16 sz)) (u16 order))). apply name_eqb_refl.
+Qed.
